@@ -345,6 +345,11 @@ def _mult_case(shape, axis_pos, n_items, values, with_ellipsis, unique_flag=None
         out.append(('not-diagonal', f'P.T @ P not simplified to a diagonal operator ({type(red).__name__}) for values '
                                     f'{np.asarray(values).tolist()} on axis {axis_pos} of {shape}'))
     D = dense(red)
+    P = dense(op)
+    if not close(D, P.T @ P, 1e-4):
+        out.append(('wrong', f'(P.T @ P).reduce() differs from the unreduced product for values '
+                             f'{np.asarray(values).tolist()} on axis {axis_pos} of {shape}: diagonal '
+                             f'{np.diag(D).reshape(shape).tolist()} vs {np.diag(P.T @ P).reshape(shape).tolist()}'))
     if not close(D, np.diag(expect.ravel()), 1e-4):
         out.append(('wrong', f'P.T @ P -> diagonal {np.diag(D).reshape(shape).tolist()} but multiplicities are '
                              f'{expect.tolist()} (values {np.asarray(values).tolist()}, axis {axis_pos} of {shape})'))
@@ -379,21 +384,24 @@ def multiplicities(w, seed, spec):
     if size_w:
         cases.append(((size_w,), 0, list(range(-size_w, size_w))))
         cases.append(((size_w, 2), 0, [size_w - 1, -1, 0]))
+    # multi-dimensional index arrays with more distinct values than their last axis is long
+    cases += [((6,), 0, [[0, 1], [2, 3], [4, 0]]), ((2,), 0, [[0], [1]]), ((5, 2), 0, [[[0], [1]], [[2], [3]]]),
+              ((2, 4), 1, [[3, 3], [1, 0], [2, 2]])]
     cases += [((2,), 0, [1, -1, 0]), ((3,), 0, [0, 0, 2]), ((4, 3), 1, [[0, 1], [1, 1]]), ((2, 3, 2), 1, [2, 2, 0, 1]),
               ((3, 2), 0, [-1, -1, 0]), ((3, 2), 0, [-1, 2, 2, -3, 0]), ((5,), 0, [4]), ((2, 2), 1, [-2, 0, 1, -1])]
-    for _ in range(6):
+    for _ in range(4):
         nd = int(rng.integers(1, 4))
         shape = tuple(int(v) for v in rng.integers(1, 5, nd))
         ax = int(rng.integers(0, nd))
         neg = bool(rng.integers(0, 2))
         vals = rng.integers(-shape[ax] if neg else 0, shape[ax], int(rng.integers(1, 7))).tolist()
         cases.append((shape, ax, vals))
-    for shape, ax, vals in cases:
+    for icase, (shape, ax, vals) in enumerate(cases):
         size = shape[ax]
         flat = np.asarray(vals).ravel().tolist()
         alias = any((v - size) in flat for v in flat if v >= 0)
         distinct_positions = len({v % size for v in flat}) == len(flat)
-        for ell in (False, True):
+        for ell in ((False, True) if icase < 6 else (bool(icase % 2),)):
             for flag in (None, True):
                 if flag and not distinct_positions:
                     continue
